@@ -227,6 +227,9 @@ fn zero_right_pad_integer_ascii_digits(
         return;
     }
 
+    // zero is written as a single '0': there are no digits to shift left
+    let integer_zero_count = if digits.as_slice() == b"0" { 0 } else { integer_zero_count };
+
     let fraction_zero_char_count;
     let decimal_place_idx;
 
